@@ -277,9 +277,11 @@ def execute(case, ctx):
                 if g["iteration_limit"] is None:
                     seqs[gi].append("skipped")
                 else:
+                    announced = len(gen)  # what list() and progress bars size themselves with
                     lst = list(gen)
                     iters[gi] = None
                     ctx.check(len(lst) == g["iteration_limit"], "iteration_yields_limit", lambda: f"generator {gi}: len(list(gen)) = {len(lst)}, iteration_limit = {g['iteration_limit']}")
+                    ctx.check(announced == len(lst), "iteration_yields_limit", lambda: f"generator {gi}: len(gen) = {announced} but iteration yields {len(lst)} instances")
                     for inst in lst:
                         check_instance(ctx, g, inst, names[gi], usage[gi], gi)
                     seqs[gi].append([plain(x) for x in lst])
